@@ -40,11 +40,18 @@ func ruleV(p *Program, r *Reporter) {
 	wantEvent := map[string]string{"Create": consts["addEvent"], "Update": consts["updateEvent"], "Delete": consts["deleteEvent"]}
 	// --- V1: in the update callback each successful mutation is followed by exactly one matching event
 	nMut := 0
-	for _, fn := range apply.AnonFuncs {
-		if len(fn.Params) < 3 {
+	for _, fn := range p.Reach(apply) {
+		// the function that applies one model update: its two model.Model parameters are (old, new)
+		var modelPrms []*ssa.Parameter
+		for _, prm := range fn.Params {
+			if isNamed(prm.Type(), repoMod+"/model", "Model") {
+				modelPrms = append(modelPrms, prm)
+			}
+		}
+		if len(modelPrms) != 2 {
 			continue
 		}
-		oldP, newP := fn.Params[len(fn.Params)-2], fn.Params[len(fn.Params)-1]
+		oldP, newP := modelPrms[0], modelPrms[1]
 		var muts, evs []*ssa.Call
 		for _, b := range fn.Blocks {
 			for _, ins := range b.Instrs {
@@ -171,7 +178,11 @@ func ruleV(p *Program, r *Reporter) {
 		return "?"
 	}
 	var handlerCalls []*ssa.Call
-	for _, b := range run.Blocks {
+	var runBlocks []*ssa.BasicBlock
+	for _, g := range p.Reach(run) {
+		runBlocks = append(runBlocks, g.Blocks...)
+	}
+	for _, b := range runBlocks {
 		for _, ins := range b.Instrs {
 			c, ok := ins.(*ssa.Call)
 			if !ok || !c.Call.IsInvoke() {
@@ -214,7 +225,7 @@ func ruleV(p *Program, r *Reporter) {
 			} else if !okCase {
 				why = fmt.Sprintf("%s is not dispatched under eventType == %q", name, wantCase[name])
 			}
-			r.Ob("V2", funcName(run), "dispatch "+name, c.Pos(), ok2, true, why)
+			r.Ob("V2", funcName(c.Parent()), "dispatch "+name, c.Pos(), ok2, true, why)
 		}
 	}
 	for _, n := range []string{"OnAdd", "OnUpdate", "OnDelete"} {
@@ -239,6 +250,8 @@ func ruleV(p *Program, r *Reporter) {
 	}
 	sends, recvs := 0, 0
 	var recvFns []string
+	inRunRegion := p.PrivateRegion(run)
+	inAddRegion := p.PrivateRegion(addEv)
 	for _, fn := range p.srcFuncs {
 		if pkgOf(fn) != "cache" {
 			continue
@@ -258,13 +271,13 @@ func ruleV(p *Program, r *Reporter) {
 						}
 						if stt.Dir == types.SendOnly {
 							sends++
-							ok := fn == addEv && !x.Blocking
+							ok := inAddRegion[fn] && !x.Blocking
 							r.Ob("V3", funcName(fn), "send on events", x.Pos(), ok, true,
 								ifs(ok, "the only producer: non-blocking send, an event is dropped only when the buffer is full", "unexpected producer / blocking send on the event channel"))
 						} else {
 							recvs++
 							recvFns = append(recvFns, funcName(fn))
-							ok := fn == run
+							ok := inRunRegion[fn]
 							r.Ob("V3", funcName(fn), "receive from events", x.Pos(), ok, true,
 								ifs(ok, "the only consumer: events are dispatched in channel (FIFO) order by one goroutine", "a second consumer of the event channel splits the change log between goroutines"))
 						}
@@ -272,7 +285,7 @@ func ruleV(p *Program, r *Reporter) {
 				case *ssa.UnOp:
 					if x.Op == token.ARROW && isEvCh(x.X) {
 						recvs++
-						ok := fn == run
+						ok := inRunRegion[fn]
 						r.Ob("V3", funcName(fn), "receive from events", x.Pos(), ok, true, ifs(ok, "the only consumer", "a second consumer of the event channel"))
 					}
 				}
@@ -284,12 +297,12 @@ func ruleV(p *Program, r *Reporter) {
 	}
 	la := getLockAnalysis(p)
 	for _, c := range handlerCalls {
-		stt := la.facts[run].before[c]
-		held := stt.mustHeld(lockKey{hm, 'W'})
-		fc := newFlowCtx(run)
+		hfn := c.Parent()
+		held, _ := la.heldAt(hfn, c, hm, true, map[*ssa.Function]bool{}, 0)
+		fc := newFlowCtx(hfn)
 		inLoop := fc.blockReach(c.Block(), c.Block())
 		ok := held && inLoop
-		r.Ob("V3", funcName(run), "handlers called under handlersMutex", c.Pos(), ok, true,
+		r.Ob("V3", funcName(hfn), "handlers called under handlersMutex", c.Pos(), ok, true,
 			ifs(ok, "every registered handler is called for the event, in one loop, with the handler list locked", "handler invoked without handlersMutex or outside the loop over handlers: handlers can see different sequences"))
 	}
 }
